@@ -2,6 +2,7 @@ package main
 
 import (
 	"bufio"
+	"strings"
 
 	"encoding/json"
 	"flag"
@@ -57,6 +58,9 @@ func (e *Emitter) Count(key string) { e.dist[key]++ }
 func (e *Emitter) Nontrivial(key string) { e.nontrivial[key] = true }
 
 func (e *Emitter) Fail(m map[string]any) {
+	if p, ok := m["panic"].(string); ok && strings.HasPrefix(p, "skipped:") {
+		return // the stream is being wound down after repeated hangs
+	}
 	if ev := takeDiscards(); len(ev) > 0 {
 		m["split_discards"] = ev
 	}
